@@ -222,20 +222,39 @@ JSONS = [b'{}', b'{"a":1}', b'{\n  "a": [1, 2],\n  "b": {"c": null}\n}', '{"k": 
 
 
 def ob_meta(ctx, encs):
-    """metadata sections: compact / pretty JSON under every encoding, format option present or absent"""
+    """metadata sections: compact / pretty JSON under every encoding, format option present or absent; the
+    encoding may be declared on the main section, on the change or on a file, and the section may sit in the
+    second file of a change or in a second change (nearest declaring ancestor, siblings never leak)"""
     import ref.spec as S
     crlf = bool(ctx.choose(0, 1, 'crlf-headers'))
     g = Gen(crlf)
     own, anc = ctx.pick('enc', encs)
-    sid = ctx.pick('sid', ['.meta', '..meta', '...meta'])
+    sid, where = ctx.pick('where', [('.meta', 'main'), ('..meta', 'change'), ('...meta', 'file1'), ('...meta', 'file2'),
+                                    ('..meta', 'change2'), ('...meta', 'change2.file1')])
+    decl = ctx.pick('declared-at', ['main', 'change', 'file'])
     js = ctx.pick('json', JSONS).decode('utf-8')
     le = ctx.pick('line_endings', [None, 'dos'])
     fmt = ctx.choose(0, 1, 'format')
-    g.container('diffx', [('version', '1.0')] + ([('encoding', anc)] if anc else []))
+    other = 'latin-1' if anc != 'latin-1' else 'utf-8'
+    # the outer encoding differs from the declared one, so a wrong inheritance is visible
+    main_enc = anc if decl == 'main' else (other if anc else None)
+    g.container('diffx', [('version', '1.0')] + ([('encoding', main_enc)] if main_enc else []))
+
+    def filler_file(enc=None):
+        g.container('..file', [('encoding', enc)] if enc else [])
+        import ref.spec as S2
+        eff0 = S2.effective_encoding(g.chain, None, '...meta')
+        g.filler('...meta', [], '{"p": "é"}' if eff0 not in (None, 'ascii') else '{"p": 1}')
     if sid != '.meta':
-        g.container('.change', [])
-    if sid == '...meta':
-        g.container('..file', [])
+        g.container('.change', [('encoding', anc)] if (anc and decl == 'change') else [])
+        if where.startswith('change2'):
+            # a first change with its own file (possibly declaring an encoding), then the change under test
+            filler_file('utf-16-be' if decl == 'file' else None)
+            g.container('.change', [('encoding', anc)] if (anc and decl in ('change', 'file')) else [])
+        if where == 'file2':
+            filler_file('utf-16-be' if decl == 'file' else None)
+        if sid == '...meta':
+            g.container('..file', [('encoding', anc)] if (anc and decl == 'file') else [])
     eff = S.effective_encoding(g.chain, own, sid)
     nl = '\r\n' if le == 'dos' else '\n'
     try:
@@ -264,7 +283,7 @@ def ob_meta(ctx, encs):
         ok_ = ok_ and dict(r['options'].items()) == e['options']
         if 'metadata' in e:
             ok_ = ok_ and r.get('metadata') == json.loads(e['metadata'])
-    return verdict(ctx, [('records', bool(ok_))], witness=wit, sample=lambda m: {'sid': sid, 'enc': eff, 'json': js})
+    return verdict(ctx, [('records', bool(ok_))], witness=wit, sample=lambda m: {'sid': sid, 'where': where, 'enc': eff, 'json': js})
 
 
 BASE = [
